@@ -11,11 +11,11 @@
    Property Deterministic: in EVERY behaviour the destination ends up as the concatenation of all
    sections in (chromosome, section) order -- the bytes do not depend on the schedule. *)
 EXTENDS Naturals, Sequences, FiniteSets, TLC
-CONSTANTS NChrom, NSec, Window, ChanCap
+CONSTANTS NChrom, Secs, Window, ChanCap      \* Secs[k]: number of sections (buffer writes) of chromosome k
 
 None == <<>>   Some(x) == <<x>>   IsSome(o) == Len(o) = 1   Get(o) == o[1]
 K == 1..NChrom
-J == 1..NSec
+J(k) == 1..Secs[k]
 
 VARIABLES
   started,   \* set of chromosomes whose processing has been set up (in order)
@@ -32,7 +32,7 @@ vars == <<started, queued, srcDone, chan, enc, wdone, bstate, staged, pdest, mai
 
 Init ==
   /\ started = {} /\ queued = [k \in K |-> 0] /\ srcDone = [k \in K |-> FALSE]
-  /\ chan = [k \in K |-> <<>>] /\ enc = [k \in K |-> [j \in J |-> "none"]] /\ wdone = [k \in K |-> FALSE]
+  /\ chan = [k \in K |-> <<>>] /\ enc = [k \in K |-> [j \in J(k) |-> "none"]] /\ wdone = [k \in K |-> FALSE]
   /\ bstate = [k \in K |-> "NotStarted"] /\ staged = [k \in K |-> <<>>] /\ pdest = [k \in K |-> None]
   /\ mailbox = [k \in K |-> None] /\ closed = [k \in K |-> None]
   /\ ownerq = <<>> /\ opc = "recv" /\ ok_ = 0 /\ file = Some(<<>>)
@@ -46,14 +46,14 @@ Setup(k) ==
   /\ UNCHANGED <<queued, srcDone, chan, enc, wdone, bstate, staged, pdest, mailbox, closed, opc, ok_, file>>
 
 Queue(k) ==
-  /\ k \in started /\ ~srcDone[k] /\ queued[k] < NSec /\ Len(chan[k]) <= ChanCap
+  /\ k \in started /\ ~srcDone[k] /\ queued[k] < Secs[k] /\ Len(chan[k]) <= ChanCap
   /\ LET j == queued[k] + 1 IN
      /\ enc' = [enc EXCEPT ![k][j] = "running"] /\ chan' = [chan EXCEPT ![k] = Append(@, j)]
      /\ queued' = [queued EXCEPT ![k] = j]
   /\ UNCHANGED <<started, srcDone, wdone, bstate, staged, pdest, mailbox, closed, ownerq, opc, ok_, file>>
 
 SrcFinish(k) ==
-  /\ k \in started /\ ~srcDone[k] /\ queued[k] = NSec
+  /\ k \in started /\ ~srcDone[k] /\ queued[k] = Secs[k]
   /\ srcDone' = [srcDone EXCEPT ![k] = TRUE]
   /\ UNCHANGED <<started, queued, chan, enc, wdone, bstate, staged, pdest, mailbox, closed, ownerq, opc, ok_, file>>
 
@@ -103,12 +103,12 @@ OEnd ==
   /\ UNCHANGED <<started, queued, srcDone, chan, enc, wdone, bstate, staged, pdest, mailbox, closed, ownerq, ok_, file>>
 
 Next == \/ \E k \in K : Setup(k) \/ Queue(k) \/ SrcFinish(k) \/ WriteSection(k) \/ WriteEnd(k)
-        \/ \E k \in K, j \in J : EncDone(k, j)
+        \/ \E k \in K : \E j \in J(k) : EncDone(k, j)
         \/ ORecv \/ OSwitch \/ OTask \/ OFile \/ OEnd
 Spec == Init /\ [][Next]_vars /\ WF_vars(Next)
 
 RECURSIVE Expected(_)
-Expected(k) == IF k = 0 THEN <<>> ELSE Expected(k - 1) \o [j \in J |-> <<k, j>>]
+Expected(k) == IF k = 0 THEN <<>> ELSE Expected(k - 1) \o [j \in J(k) |-> <<k, j>>]
 Deterministic == opc = "end" => file = Some(Expected(NChrom))
 NoStuck == (ENABLED Next) \/ opc = "end"
 Terminates == <>(opc = "end")
